@@ -23,7 +23,7 @@ VARIANTS = {
     # name: (compiler, cflags, extra cmake args, targets)
     "asan": ("clang", f"{SAN} {GUARD}", ["-DXZ_SANDBOX=no"], ["liblzma"]),
     "sched": ("clang", f"{SAN} {GUARD} -include {SCHED_INC}", ["-DXZ_SANDBOX=no"], ["liblzma"]),
-    "tsan": ("clang", f"-O1 -g -fno-omit-frame-pointer -fsanitize=thread {COV} {GUARD}", ["-DXZ_SANDBOX=no"], ["liblzma"]),
+    "tsan": ("clang", f"-O1 -g -fno-omit-frame-pointer -fsanitize=thread {GUARD}", ["-DXZ_SANDBOX=no"], ["liblzma"]),
     "gen": ("clang", f"{SAN} {GUARD}", ["-DXZ_SANDBOX=no", "-DXZ_CLMUL_CRC=OFF"], ["liblzma"]),
     "small": ("clang", f"{SAN} {GUARD}", ["-DXZ_SANDBOX=no", "-DXZ_SMALL=ON"], ["liblzma"]),
     "clmul": ("clang", f"{SAN} {GUARD} -mssse3 -msse4.1 -mpclmul", ["-DXZ_SANDBOX=no"], ["liblzma"]),
@@ -123,6 +123,10 @@ def build_target(name, variant="asan", src=None, extra_flags=(), fuzzer=True, ou
     """Compile harness/<src or name>.cc against the given lib variant -> build/bin/<out_name>."""
     d = build_lib(variant)
     lib = os.path.join(d, "liblzma.a")
+    if variant == "tsan":
+        # no coverage counters under TSan (their non-atomic increments are data races): plain driver instead of libFuzzer
+        fuzzer = False
+        extra_src = tuple(extra_src) + ("harness/minidrv.cc",)
     bind = os.path.join(BUILD, "bin" if REPO == "/repo" else "bin-" + os.path.basename(d))
     os.makedirs(bind, exist_ok=True)
     out = os.path.join(bind, out_name or (name if variant == "asan" else f"{name}-{variant}"))
